@@ -22,6 +22,7 @@ def handle (j : Json) : Except String Json := do
   | "trace_ok" => Driver.traceOK j
   | "cursor" => Driver.cursor j
   | "rankids" => Driver.rankids j
+  | "rankheap" => Driver.rankheap j
   | "tmp_issued" => Driver.tmpIssued j
   | "ft_op" => Driver.ftOp j
   | "ft_fiber" => Driver.ftFiber j
